@@ -39,6 +39,11 @@ let handle fields impl : string option * string list =
   | ["enc"; items] ->
     let l = Util.items_of_string items in
     (Some (Util.hex_of_bytes (ub (encode_contents (bl l)))), [])
+  | ["rejoin"; items] ->
+    (* join(split(join l)) = join l, twice over the same split items, and the split items are still l *)
+    let m = Util.hex_of_bytes (ub (encode_contents (bl (Util.items_of_string items)))) in
+    let spec = m ^ " " ^ m ^ " " ^ items in
+    (Some spec, if impl = spec then [] else if starts impl "err" then ["roundtrip decode(encode l) fails"] else ["join-of-split-items-differs-or-modified-its-input"])
   | ["hold"; items; _] ->
     (* the payload joined from [items], observed after later joins of other lists: still encode(items), and it still splits to items *)
     let m = Util.hex_of_bytes (ub (encode_contents (bl (Util.items_of_string items)))) in
